@@ -178,6 +178,27 @@ CHECKS = {
         "Differential oracle (no expected value); one generator from the identity (orbit closure by composition is not explored); exact ties in the measure are covered by open finding F20.",
         "DESIGN.md §3 C11",
     ),
+    "C14": (
+        "E1-space",
+        "bounded-exhaustive search over frames built from a target-relative column alphabet x selector configurations (+ all shuffle outcomes through a seam); property-style oracle with recomputed measures",
+        "Every frame whose columns are a 3-subset (4-subset in thorough) of the column alphabet (copy, monotone image, negation, duplicate, "
+        "noisy, independent, constant, half-missing, qualitative analogues) for binary / 3-class / continuous targets, x n_best x "
+        "thresh_corr x filters, and colsample=0.5 under every shuffle outcome: the returned list must be distinct inputs in decreasing "
+        "recomputed association, capped by n_best, pairwise within thresh_corr, every omission justified by one of the stated reasons, "
+        "reported measures equal to textbook recomputation, inputs unmodified.",
+        "12-row frames; ties accepted in any order; chi2 with/without Yates accepted; completeness clause not judged for colsample<1; RegressionSelector's 1-r ranking is open finding F09.",
+        "DESIGN.md §3 C14",
+    ),
+    "C15": (
+        "E1-space",
+        "bounded-exhaustive metamorphic exploration: every C14 frame x its orbit under generator re-encodings, differential oracle",
+        "For the C14 frames with default measures/filters, the selection is recomputed after negating / rescaling each quantitative column, "
+        "renaming the categories of each qualitative column by every permutation and by fresh names, every column permutation and row "
+        "generators; the returned list must be identical modulo measure ties, and a single exact copy / monotone image of the target is "
+        "always returned.",
+        "Differential oracle; one generator from the identity; ties compared by value.",
+        "DESIGN.md §3 C15",
+    ),
 }
 
 NOT_BUILT = "check not built yet (work in progress, see DESIGN.md §7 for the order)"
